@@ -27,11 +27,16 @@
     of the grammar.
   * resumed calls, one suspension, no values object: `hs_line_resumed_sound`, `hs_block_resumed_sound` (through
     `parseHdrLine_resume` / `parseHeaders_resume`).
+  * ANY values object (typed lines included): `hs_afterColon_all`, `hs_line_loop_all` (`HsTypedOut`),
+    `hs_line_name_type_sound` (every accepted line: non-empty name, spaces / tabs, colon; reported name = that text,
+    reported type = its classification, header finished), `hs_line_sound_reported` (generic hypothesis phrased on the
+    REPORTED type), `hs_line_empty_all`, `hs_block_names_all` / `hs_block_all_report` (`HsChain`: ParseHeaders reports
+    one header per accepted line, in order, names and types right; count / stored / flags / first-of-type).
 
-  NOT proved here: soundness for the eight typed header kinds when a values object is supplied (their value parsers
-  decide; see `Sipsp.Proofs.HdrTyped` for the completeness side); a variant of the generic hypothesis phrased on the
-  REPORTED type (`IsOther h.type`) instead of on the text; resumed calls with more than one suspension or with a
-  values object; buffers above 65,535 bytes (offsets are 16-bit in the header object).
+  NOT proved here: the VALUE part of the eight typed header kinds when a values object is supplied (their value
+  parsers decide where the line ends and what `Val` is; `Sipsp.Proofs.HdrTyped` has the completeness side), hence no
+  iff for blocks containing typed lines; resumed calls with more than one suspension or with a values object; buffers
+  above 65,535 bytes (offsets are 16-bit in the header object).
 -/
 import Sipsp.Proofs.HdrSpec
 
@@ -1412,5 +1417,29 @@ example : (parseHdrLine "Subject: a".toUTF8.data 0 {} none).2.1 = .moreBytes ∧
       (parseHdrLine "Subject: a".toUTF8.data 0 {} none).1
       (parseHdrLine "Subject: a".toUTF8.data 0 {} none).2.2.1
       (parseHdrLine "Subject: a".toUTF8.data 0 {} none).2.2.2).2.1 = .ok := by decide +kernel
+
+/-- demo text with typed lines: `f: <sip:a@b>`, `CSeq: 1 INVITE`, `Q:z`, the empty line, `X` -/
+def hsDemoTyped : Buf := "f: <sip:a@b>\r\nCSeq: 1 INVITE\r\nQ:z\r\n\r\nX".toUTF8.data
+
+/-- test: the hypothesis of `hs_block_all_report` is satisfiable with a values object and typed lines (capacity 2,
+    three headers): the text `[0, 37)` is a chain of three lines with the names / types reported -/
+example : ∃ hs, hs ≠ [] ∧ HsChain hsDemoTyped 0 hs 37 ∧ hs.length = 3 := by
+  have h1 : (parseHeaders hsDemoTyped 0 (hsNew 2) (some {})).1 = 37 := by decide +kernel
+  have h2 : (parseHeaders hsDemoTyped 0 (hsNew 2) (some {})).2.1 = .ok := by decide +kernel
+  have h3 : (parseHeaders hsDemoTyped 0 (hsNew 2) (some {})).2.2.1.n = 3 := by decide +kernel
+  rcases h : parseHeaders hsDemoTyped 0 (hsNew 2) (some {}) with ⟨e, er, hl', hb'⟩
+  rw [h] at h1 h2 h3
+  simp only at h1 h2 h3
+  subst h1
+  subst h2
+  obtain ⟨hs, q1, q2, q3, _⟩ := hs_block_all_report hsDemoTyped 0 2 (some {}) (by decide +kernel) h
+  exact ⟨hs, q1, q2, by rw [← q3]; exact h3⟩
+
+/-- test: a resumed ParseHeaders call (cut inside the block) — hypotheses of `hs_block_resumed_sound` are satisfiable -/
+example : (parseHeaders "Q:z\r\n".toUTF8.data 0 (hsNew 1) none).2.1 = .moreBytes ∧
+    (parseHeaders ("Q:z\r\n".toUTF8.data ++ "\r\nX".toUTF8.data)
+      (parseHeaders "Q:z\r\n".toUTF8.data 0 (hsNew 1) none).1
+      (parseHeaders "Q:z\r\n".toUTF8.data 0 (hsNew 1) none).2.2.1
+      (parseHeaders "Q:z\r\n".toUTF8.data 0 (hsNew 1) none).2.2.2).2.1 = .ok := by decide +kernel
 
 end Sipsp
